@@ -526,6 +526,38 @@ func C15(c *core.Ctx) {
 				for k := 0; k < rc.perS; k++ {
 					sel = append(sel, ops[rng.Intn(len(ops))])
 				}
+				// one of them a selection that follows dependencies (the operation with the most case analysis: required and
+				// optional edges, enabled and disabled targets, several routes to one service)
+				if len(pre.Disabled) > 0 {
+					for {
+						if o := ops[rng.Intn(len(ops))]; o.Op == "select" && o.Policy == "deps" && len(o.Names) > 0 {
+							sel[0] = o
+							break
+						}
+					}
+				}
+				// where a service that is not enabled is the target of both an optional and a required edge (it can be reached by
+				// two routes that disagree on whether it may be missing), every such selection
+				mixed := false
+				for _, d := range pre.Disabled {
+					var opt, req bool
+					for i := range pre.Opt {
+						for _, t := range pre.Opt[i] {
+							opt = opt || t == d
+						}
+						for _, t := range pre.Req[i] {
+							req = req || t == d
+						}
+					}
+					mixed = mixed || (opt && req)
+				}
+				if mixed {
+					for _, o := range ops {
+						if o.Op == "select" && o.Policy == "deps" && len(o.Names) > 0 {
+							sel = append(sel, o)
+						}
+					}
+				}
 			}
 			for _, o := range sel {
 				ev, _ := c15Step(c, real, pre, o, rc.n)
